@@ -8,6 +8,7 @@ import (
 	"encoding/json"
 	"fmt"
 	"io"
+	"net"
 	"net/http"
 	"net/http/httptest"
 	"strconv"
@@ -20,6 +21,9 @@ import (
 	"google.golang.org/grpc"
 	"google.golang.org/grpc/codes"
 	_ "google.golang.org/grpc/encoding/gzip" // client-side gzip for the reference client
+	"google.golang.org/grpc/metadata"
+	"google.golang.org/grpc/reflection"
+	rpb "google.golang.org/grpc/reflection/grpc_reflection_v1alpha"
 	"google.golang.org/grpc/status"
 	"google.golang.org/protobuf/encoding/protojson"
 	"google.golang.org/protobuf/encoding/protowire"
@@ -478,6 +482,7 @@ func runStreams(c *Ctx, prop string) {
 		}
 	}
 	if prop == "C06" {
+		c06Proxy(c)
 		c17Mux(c, "C06") // HttpBody uploads against small chunk sizes: every chunk, in order, nothing lost at the end
 	}
 	c06Grpc(c, prop, sfx)
@@ -1049,3 +1054,85 @@ func wsEcho(url string, fx *Fixture, msgs [][]byte, modes ...int) (echo [][]byte
 }
 
 var _ = http.StatusOK
+
+// c06Proxy: the handler of a proxied method is the backend behind RegisterConn — it too must
+// receive exactly the client's message sequence (0..4 messages, the empty stream included)
+// followed by a clean end-of-stream, and the call must end.
+func c06Proxy(c *Ctx) {
+	bk := &c10Backend{seen: map[string]*c10Seen{}}
+	fixtureDeferRegistration = true
+	backFx, err := NewFixture(c10Specs(bk), nil)
+	fixtureDeferRegistration = false
+	if err != nil {
+		c.Note("c06 proxy fixture: " + err.Error())
+		return
+	}
+	gs := grpc.NewServer()
+	for _, sd := range backFx.ServiceDescs() {
+		gs.RegisterService(sd, nil)
+	}
+	rpb.RegisterServerReflectionServer(gs, reflection.NewServer(reflection.ServerOptions{Services: gs, DescriptorResolver: backFx.Files}))
+	blis, _ := net.Listen("tcp", "127.0.0.1:0")
+	go gs.Serve(blis) //nolint
+	defer gs.Stop()
+	bcc, _ := grpc.NewClient(blis.Addr().String(), grpcInsecure())
+	defer bcc.Close()
+	mux, err := larking.NewMux()
+	if err != nil {
+		c.Note("c06 proxy mux: " + err.Error())
+		return
+	}
+	ctx, cancel := context.WithTimeout(context.Background(), 5*time.Second)
+	err = mux.RegisterConn(ctx, bcc)
+	cancel()
+	if err != nil {
+		c.Note("c06 proxy RegisterConn: " + err.Error())
+		return
+	}
+	srv, _ := larking.NewServer(mux)
+	flis, _ := net.Listen("tcp", "127.0.0.1:0")
+	go srv.Serve(flis) //nolint
+	defer srv.Close()
+	fcc, _ := grpc.NewClient(flis.Addr().String(), grpcInsecure())
+	defer fcc.Close()
+	id := 0
+	for _, sh := range []struct {
+		name   string
+		cs, ss bool
+	}{{"CS", true, false}, {"BD", true, true}} {
+		for nmsg := 0; nmsg <= 4; nmsg++ {
+			for _, replies := range []int{0, 2} {
+				var msgs []*dynamicpb.Message
+				var want []string
+				for k := 0; k < nmsg; k++ {
+					m := backFx.NewMsg("Req")
+					m.Set(m.Descriptor().Fields().ByName("name"), protoreflect.ValueOfString(fmt.Sprintf("p%d-%d", nmsg, k)))
+					b, _ := protojson.Marshal(m)
+					msgs = append(msgs, m)
+					want = append(want, string(b))
+				}
+				id++
+				cid := fmt.Sprint("c06p", id)
+				md := metadata.Pairs("x-c10-id", cid, "x-c10-script", fmt.Sprintf("%d,0,-2,0", replies), "x-c10-msg-bin", "", "x-c10-details", "0")
+				out := c10Call(fcc, backFx, sh.name, sh.cs, sh.ss, msgs, md, 0)
+				bk.mu.Lock()
+				seen := bk.seen[cid]
+				if seen == nil {
+					seen = &c10Seen{}
+				}
+				gotMsgs, closed := append([]string(nil), seen.msgs...), seen.closed
+				bk.mu.Unlock()
+				in := fmt.Sprintf("proxied %s over gRPC: the client sends %d messages and half-closes; the backend answers %d replies, OK", sh.name, nmsg, replies)
+				c.Eval("proxy-sequence", in, true)
+				c.Class("proxy:" + sh.name)
+				ok := len(gotMsgs) == len(want) && closed && !out.hung && out.code == codes.OK
+				for k := 0; ok && k < len(want); k++ {
+					ok = jsonEqual(gotMsgs[k], want[k], backFx)
+				}
+				if !ok {
+					c.SpecFail("proxy-sequence", in, fmt.Sprintf("backend got %d messages, end-of-stream=%v; client: %s hung=%v", len(gotMsgs), closed, out.String(), out.hung), fmt.Sprintf("%d messages in order, then end-of-stream; status OK", nmsg), "C06/proxy/"+sh.name+"/sequence", "the backend behind the proxy does not receive the client's message sequence followed by a clean end-of-stream")
+				}
+			}
+		}
+	}
+}
